@@ -29,6 +29,8 @@ import (
 )
 
 type admitCase struct {
+	Outbound        bool   `json:"outbound"`          // the switch under test dialed out (AddPeerWithConnection(conn, true)) instead of accepting the connection
+	PKFilter        string `json:"pubkey_filter"`     // none | rejects-peer-key : the switch's pub-key filter hook
 	Phase           string `json:"phase"`             // genesis | ca-removed | peer-removed
 	Refused         bool   `json:"refused"`           // authenticated key is on the refuse list
 	Mismatch        string `json:"mismatch"`          // none | other | other-validator : announced NodeInfo.PubKey vs authenticated key
@@ -40,6 +42,8 @@ type admitCase struct {
 }
 
 var (
+	admitDirections = []string{"inbound", "outbound"}
+	admitPKFilters  = []string{"none", "rejects-peer-key"}
 	admitPhases     = []string{"genesis", "ca-removed", "peer-removed"}
 	admitMismatches = []string{"none", "other", "other-validator"}
 	admitSigs       = []string{"current-ca", "ca-removed-in-changed-phase", "non-ca-validator", "outsider", "current-ca-over-other-key", "garbage-hex", "empty", "non-hex"}
@@ -78,6 +82,9 @@ func (a admitCase) want() (admit bool, failing []string) {
 	if a.Refused {
 		failing = append(failing, "refuse-list")
 	}
+	if a.PKFilter == "rejects-peer-key" {
+		failing = append(failing, "pubkey-filter")
+	}
 	if a.Mismatch != "none" {
 		failing = append(failing, "announced-key-differs")
 	}
@@ -91,6 +98,7 @@ func (a admitCase) want() (admit bool, failing []string) {
 }
 
 type admitResult struct {
+	timeout  bool // the handshake deadline of the switch / of the scripted peer expired
 	admitted bool
 	err      error
 	peers    int
@@ -141,6 +149,15 @@ func runAdmission(a admitCase) admitResult {
 	sw.SetRefuseListFilter(gemmill.VerifRefuseListFilter(rl))
 	if conf.GetBool("auth_by_ca") {
 		sw.SetAuthByCA(gemmill.VerifAuthByCA(conf, &stateM.Validators))
+	}
+	if a.PKFilter == "rejects-peer-key" {
+		reject := identity.PubKey()
+		sw.SetPubKeyFilter(func(pk crypto.PubKey) error {
+			if pk != nil && pk.Equals(reject) {
+				return fmt.Errorf("key rejected by the pub-key filter")
+			}
+			return nil
+		})
 	}
 	admin := &plugin.AdminOp{}
 	admin.Init(&plugin.InitParams{Switch: sw, PrivKey: kNode, RefuseList: rl, Validators: &stateM.Validators})
@@ -212,7 +229,7 @@ func runAdmission(a admitCase) admitResult {
 	}()
 	var peer *p2p.Peer
 	started := time.Now()
-	p, v, st := core.Try(func() { peer, res.err = sw.AddPeerWithConnection(c1, false) })
+	p, v, st := core.Try(func() { peer, res.err = sw.AddPeerWithConnection(c1, a.Outbound) })
 	c1.Close()
 	c2.Close()
 	wg.Wait()
@@ -221,7 +238,7 @@ func runAdmission(a admitCase) admitResult {
 		return res
 	}
 	if te, ok := res.err.(interface{ Timeout() bool }); ok && te.Timeout() || time.Since(started) > 15*time.Second {
-		core.Fatal("admission handshake hit the deadline (%v): harness problem, not a verdict", res.err)
+		res.timeout = true
 	}
 	res.peers = sw.Peers().Size()
 	res.admitted = res.peers > 0 || peer != nil
@@ -265,29 +282,54 @@ func (c *ctx) runAdmit(k kase) {
 	atomic.AddInt64(&c.evals, 1)
 	a := *k.Admit
 	want, failing := a.want()
-	res := runAdmission(a)
+	fl := c.begin(k, map[string]string{"part": "admission"})
+	defer c.end(fl)
+	var res admitResult
+	for attempt := 1; attempt <= 3; attempt++ {
+		// (a handshake that runs into the 20 s deadlines is repeated; 3 of 3: the peer counts as not admitted)
+		fl.tick()
+		res = runAdmission(a)
+		if !res.timeout || res.pan != "" {
+			break
+		}
+	}
 	valset := "genesis"
 	if a.Phase != "genesis" {
 		valset = "changed-after-startup"
 	}
+	direction := admitDirections[0]
+	if a.Outbound {
+		direction = admitDirections[1]
+	}
 	if res.pan != "" {
-		c.report(map[string]string{"part": "admission", "kind": "panic", "site": res.site, "valset": valset}, k, "AddPeerWithConnection panicked: "+res.pan)
+		c.report(map[string]string{"part": "admission", "kind": "panic", "site": res.site, "valset": valset, "direction": direction}, k, "AddPeerWithConnection panicked: "+res.pan)
 		return
 	}
-	c.classes.Add(fmt.Sprintf("admit/%s/admitted=%v/failing=%s", valset, res.admitted, strings.Join(failing, "+")))
+	c.classes.Add(fmt.Sprintf("admit/%s/%s/admitted=%v/failing=%s", direction, valset, res.admitted, strings.Join(failing, "+")))
 	if res.admitted == want {
 		return
 	}
 	if res.admitted {
-		c.report(map[string]string{"part": "admission", "kind": "admitted-but-forbidden", "cause": strings.Join(failing, "+"), "valset": valset}, k,
+		c.report(map[string]string{"part": "admission", "kind": "admitted-but-forbidden", "cause": strings.Join(failing, "+"), "valset": valset, "direction": direction}, k,
 			fmt.Sprintf("peer admitted (Switch.Peers().Size()=%d, err=%v) although: %s; case %+v", res.peers, res.err, strings.Join(failing, ", "), a))
 		return
 	}
-	c.report(map[string]string{"part": "admission", "kind": "legitimate-peer-refused", "valset": valset}, k,
-		fmt.Sprintf("peer satisfies every admission rule but was refused: %v; case %+v", res.err, a))
+	c.report(map[string]string{"part": "admission", "kind": "legitimate-peer-refused", "valset": valset, "direction": direction}, k,
+		fmt.Sprintf("peer satisfies every admission rule but was refused: %v (handshake deadline hit 3 times out of 3: %v); case %+v", res.err, res.timeout, a))
 }
 
 func admitCases() []kase {
+	var out []kase
+	bools := []bool{false, true}
+	for _, outbound := range bools {
+		for _, pkf := range admitPKFilters {
+			out = append(out, admitCasesOf(outbound, pkf)...)
+		}
+	}
+	return out
+}
+
+func admitCasesOf(outbound bool, pkf string) []kase {
 	var out []kase
 	bools := []bool{false, true}
 	for _, ph := range admitPhases {
@@ -301,7 +343,7 @@ func admitCases() []kase {
 						for _, nva := range bools {
 							for _, sg := range admitSigs {
 								for _, self := range bools {
-									a := admitCase{Phase: ph, Refused: refused, Mismatch: mm, AuthByCA: abc, PeerIsValidator: pv, NonValAuth: nva, Sig: sg, Self: self}
+									a := admitCase{Outbound: outbound, PKFilter: pkf, Phase: ph, Refused: refused, Mismatch: mm, AuthByCA: abc, PeerIsValidator: pv, NonValAuth: nva, Sig: sg, Self: self}
 									out = append(out, kase{Part: "admit", Admit: &a})
 								}
 							}
